@@ -444,11 +444,36 @@ class Layout:
     def p(self, ch):
         self.tok(ch, word=False)
 
-    def line(self, s):
-        """a directive: must be alone on its line"""
-        if self.out and not self.out[-1].endswith("\n"):
+    def line(self, s, tail=False):
+        """a directive: everything up to the end of the line belongs to its token.  `tail`: the directive takes no
+        argument (`celldefine / `endcelldefine), so anything the language treats as white space may follow it on the
+        line - blanks, tabs, a line comment, a closed block comment - and it may be indented or follow `endmodule`
+        on the same line; the reader has to recognise the directive by its first word."""
+        same_line = False
+        if tail and self.rng is not None:
+            r = self.rng.random()
+            if r < 0.12 and len(self.out) >= 2 and self.out[-1] == "\n" and self.out[-2].endswith("endmodule"):
+                self.out[-1] = self.rng.choice([" ", "  ", "\t"])          # `endmodule `endcelldefine` on one line
+                same_line = True
+            elif r < 0.3:
+                if self.out and not self.out[-1].endswith("\n"):
+                    self.out.append("\n")
+                self.out.append(self.rng.choice([" ", "  ", "\t", "    "]))  # indented directive
+                same_line = True
+        if not same_line and self.out and not self.out[-1].endswith("\n"):
             self.out.append("\n")
-        self.out.append(s + "\n")
+        t = ""
+        if tail and self.rng is not None:
+            r = self.rng.random()
+            if r < 0.2:
+                t = self.rng.choice([" ", "  ", "\t", " \t "])
+            elif self.comments and r < 0.45:
+                t = self.rng.choice([" ", "  ", "\t"]) + "// " + self.rng.choice(
+                    ["primitives", "simulation models", "module m;", "`endcelldefine", "end of the cells", "a /* b"])
+            elif self.comments and r < 0.65:
+                t = self.rng.choice([" ", "  ", "\t"]) + "/* " + self.rng.choice(["cells", "x y", "`celldefine", "module q;"]) + " */" + \
+                    self.rng.choice(["", " ", "\t"])
+        self.out.append(s + t + "\n")
         self._last_word = False
 
     def text(self):
@@ -658,15 +683,15 @@ def render(design, rng, comments=True):
     in_cell = False
     for m in design["modules"]:
         if m["kind"] == "prim" and not in_cell:
-            L.line("`celldefine")
+            L.line("`celldefine", tail=True)
             in_cell = True
         if m["kind"] != "prim" and in_cell:
-            L.line("`endcelldefine")
+            L.line("`endcelldefine", tail=True)
             in_cell = False
         w_module(L, m)
         L.out.append("\n")
     if in_cell:
-        L.line("`endcelldefine")
+        L.line("`endcelldefine", tail=True)
     return L.text()
 
 
